@@ -4,6 +4,7 @@ import (
 	"fmt"
 	"math/rand"
 	"os"
+	"sort"
 	"strings"
 	"time"
 
@@ -72,8 +73,7 @@ func runSuggest(in sugInput) sugObs {
 	case err != nil:
 		return sugObs{Outcome: "err"}
 	}
-	c, cerr := semver.Maven.ParseConstraint(in.Req)
-	if cerr == nil && !c.IsSimple() && got.Version == in.Req {
+	if got.Version == in.Req { // the requirement comes back as it was
 		return sugObs{Outcome: "keep"}
 	}
 	return sugObs{Outcome: "new", Version: got.Version}
@@ -273,7 +273,15 @@ func resolveWith(cl resolve.Client, m0 guidedremediation.VerifC11Manifest, ups [
 // addUcases judges every PackageUpdate of a run: version of the package without that update (all other
 // updates applied) against its version in the manifest as written.
 func addUcases(o *output, stream string, strat int, sys resolve.System, cl resolve.Client, m0 guidedremediation.VerifC11Manifest, path string,
-	cfg upgrade.Config, ups []result.PackageUpdate, listed func(result.PackageUpdate) bool, info map[string]any) {
+	cfg upgrade.Config, patches [][]result.PackageUpdate, listed func(result.PackageUpdate) bool, info map[string]any) {
+	var ups []result.PackageUpdate
+	patchOf := map[int]int{}
+	for pi, p := range patches {
+		for _, pu := range p {
+			patchOf[len(ups)] = pi
+			ups = append(ups, pu)
+		}
+	}
 	m1, err := guidedremediation.VerifC11ReadManifest(path, "")
 	var gNew *resolve.Graph
 	if err == nil {
@@ -325,9 +333,35 @@ func addUcases(o *output, stream string, strat int, sys resolve.System, cl resol
 				}
 			}
 		}
-		honoured := strat == 1 || (known && nw == u.VersionTo && fromHonoured)
+		honoured := known && nw == u.VersionTo && fromHonoured
+		if strat == 1 {
+			// relax reasons from the highest version matching the old requirement; npm resolves to the
+			// version tagged "latest" when that one matches, which can be lower
+			honoured = true
+			if cfrom, err := sys.Semver().ParseConstraint(u.VersionFrom); err == nil && okb {
+				hi := ""
+				vks, _ := cl.Versions(ctx, resolve.PackageKey{System: sys, Name: u.Name})
+				for _, vk := range vks {
+					if cfrom.Match(vk.Version) && (hi == "" || sys.Semver().Compare(hi, vk.Version) < 0) {
+						hi = vk.Version
+					}
+				}
+				honoured = hi == "" || sys.Semver().Compare(hi, base) == 0
+			}
+		}
 		orig, oko := nodeVersion(gOrig, u.Name)
 		indep := byReq || (oko && okb && orig == base) || (!oko && !okb)
+		if strat == 2 {
+			// override: independent of the OTHER patches of the run (the updates of its own patch belong to it)
+			var same []result.PackageUpdate
+			for j, w := range ups {
+				if j != i && patchOf[j] == patchOf[i] {
+					same = append(same, w)
+				}
+			}
+			sb, oks := nodeVersion(resolveWith(cl, m0, same), u.Name)
+			indep = byReq || (oks == okb && sb == base)
+		}
 		s := fmt.Sprintf("{| u_strategy := %d; u_level := %s; u_known := %v; u_cmp := %s; u_dif := %s; u_op := %d; u_listed := %v; u_honoured := %v; u_indep := %v; u_consistent := %v |}",
 			strat, levelCoq(lv), known, cmpCoq(cmp), diffCoq(dif), op, listed(u), honoured, indep, cons)
 		side := map[string]any{"strategy": []string{"update", "relax", "override"}[strat], "update": map[string]any{"name": u.Name, "from": u.VersionFrom, "to": u.VersionTo, "transitive": u.Transitive},
@@ -352,6 +386,9 @@ func streamUpdate(o *output, r *rand.Rand, n int) {
 				m.Deps[k].Req = "${some.version}"
 			}
 		}
+		if i%3 == 1 {
+			addDuplicateDeclarations(r, u, &m)
+		}
 		cfg := genConfig(r, u)
 		ignoreDev := r.Intn(3) == 0
 		runUpdateCase(o, u, m, cfg, ignoreDev, "")
@@ -373,7 +410,11 @@ func runUpdateCase(o *output, u *universe, m manifestSpec, cfg upgrade.Config, i
 	names, vers := newNames(), newVers()
 	// the per-requirement answers of suggestMavenVersion, by direct call
 	var reqs []string
-	for _, rq := range m0.Requirements() {
+	allReqs, okAll := guidedremediation.VerifC11UpdateRequirements(m0)
+	if !okAll {
+		allReqs = m0.Requirements()
+	}
+	for _, rq := range allReqs {
 		dev := false
 		for _, d := range m.Deps {
 			if d.Name == rq.Name && d.Dev {
@@ -392,8 +433,7 @@ func runUpdateCase(o *output, u *universe, m manifestSpec, cfg upgrade.Config, i
 		case serr != nil:
 			res = "SErr"
 		default:
-			c, cerr := semver.Maven.ParseConstraint(rq.Version)
-			if cerr == nil && !c.IsSimple() && got.Version == rq.Version {
+			if got.Version == rq.Version {
 				res = "SKeep"
 			} else {
 				res = "(SNew " + vers.n(got.Version) + ")"
@@ -424,35 +464,77 @@ func runUpdateCase(o *output, u *universe, m manifestSpec, cfg upgrade.Config, i
 		obs = "(SuggOk " + cf.List(items) + ")"
 	}
 	info := map[string]any{"universe": u, "manifest": m, "config": cfgJSON(cfg), "ignore_dev": ignoreDev}
-	side := map[string]any{"observed": obs, "panic": pmsg, "updates": ups, "nontrivial": len(m0.Requirements()) > 0, "known_id": knownID}
+	side := map[string]any{"observed": obs, "panic": pmsg, "updates": ups, "nontrivial": len(allReqs) > 0, "known_id": knownID}
 	for k, v := range info {
 		side[k] = v
 	}
 	qListed := true
-	for _, rq := range m0.Requirements() {
+	for _, rq := range allReqs {
 		qListed = qListed && reqListed(u, rq.Name, rq.Version)
 	}
+	// every returned update judged on its own declaration: the version the declared requirement stands
+	// for (the version itself, or the highest listed match of a range) against VersionTo
+	var judged []string
+	for _, p := range ups {
+		cur := ""
+		if c, err := semver.Maven.ParseConstraint(p.VersionFrom); err == nil {
+			if c.IsSimple() {
+				cur = p.VersionFrom
+			} else {
+				for _, v := range u.versionStrings(p.Name) {
+					if c.Match(v) && (cur == "" || semver.Maven.Compare(cur, v) < 0) {
+						cur = v
+					}
+				}
+			}
+		}
+		if cur == "" {
+			continue
+		}
+		if _, d, err := semver.Maven.Difference(p.VersionTo, cur); err == nil {
+			judged = append(judged, fmt.Sprintf("(%s, %s, %s)", names.n(p.Name), cmpCoq(semver.Maven.Compare(cur, p.VersionTo)), diffCoq(d)))
+		}
+	}
+	dup := false
+	seenName := map[string]bool{}
+	for _, rq := range allReqs {
+		dup = dup || seenName[rq.Name]
+		seenName[rq.Name] = true
+	}
+	side["declared_more_than_once"] = dup
 	stream := "qcase"
 	if knownID != "" {
 		stream = "k_qcase"
 	}
-	o.add(stream, fmt.Sprintf("{| q_cfg := %s; q_reqs := %s; q_listed := %v; q_observed := %s |}", cfgCoq(names, cfg), cf.List(reqs), qListed, obs), side)
-	if oc == callOK && uerr == nil && knownID == "" {
-		addUcases(o, "ucase", 0, u.Sys, cl, m0, path, cfg, ups, func(p result.PackageUpdate) bool { return reqListed(u, p.Name, p.VersionFrom) }, info)
+	o.add(stream, fmt.Sprintf("{| q_cfg := %s; q_reqs := %s; q_listed := %v; q_judged := %s; q_observed := %s |}", cfgCoq(names, cfg), cf.List(reqs), qListed, cf.List(judged), obs), side)
+	// (with several declarations of one package the resolved graph says nothing about the individual
+	// declarations: those runs are judged per declaration above only)
+	if oc == callOK && uerr == nil && knownID == "" && !dup {
+		addUcases(o, "ucase", 0, u.Sys, cl, m0, path, cfg, [][]result.PackageUpdate{ups}, func(p result.PackageUpdate) bool { return reqListed(u, p.Name, p.VersionFrom) }, info)
 	}
 }
 
-// reqListed: the domain D of the update theorems at manifest level: the requirement is a version the
-// registry lists (or a range with a match) and the package's versions are pairwise different in the
-// ecosystem order.
+// reqListed: the domain D of the update oracle at manifest level: Compare is a total preorder on the
+// package's versions and no two different version strings, the declared one included, compare equal
+// (an update from "1.0" to a listed "1.0.0" would not be strictly upward).
 func reqListed(u *universe, name, req string) bool {
 	vs := u.versionStrings(name)
-	ri := ranksOf(semver.Maven, vs)
+	all := append([]string{}, vs...)
+	if c, err := semver.Maven.ParseConstraint(req); err == nil && c.IsSimple() {
+		listed := false
+		for _, v := range vs {
+			listed = listed || v == req
+		}
+		if !listed {
+			all = append(all, req)
+		}
+	}
+	ri := ranksOf(semver.Maven, all)
 	if !ri.consistent {
 		return false
 	}
 	seen := map[int64]bool{}
-	for _, v := range vs {
+	for _, v := range all {
 		if !ri.parses[v] {
 			continue
 		}
@@ -461,19 +543,49 @@ func reqListed(u *universe, name, req string) bool {
 		}
 		seen[ri.rank[v]] = true
 	}
-	for _, v := range vs {
-		if v == req {
-			return true
+	return true
+}
+
+// addDuplicateDeclarations declares one package of the manifest a second (and sometimes third) time,
+// at a different listed version, in dependencyManagement / a profile / a pluginManagement plugin, and
+// puts the lower declaration second so that the first one is the one most likely to get an update.
+func addDuplicateDeclarations(r *rand.Rand, u *universe, m *manifestSpec) {
+	var cands []int
+	for i, d := range m.Deps {
+		if !d.Mgmt && len(u.versionStrings(d.Name)) >= 3 {
+			cands = append(cands, i)
 		}
 	}
-	c, err := semver.Maven.ParseConstraint(req)
-	if err != nil || c.IsSimple() {
-		return false
+	if len(cands) == 0 {
+		return
 	}
-	for _, v := range vs {
-		if c.Match(v) {
-			return true
+	i := pick(r, cands)
+	name := m.Deps[i].Name
+	vs := u.versionStrings(name)
+	ri := ranksOf(semver.Maven, vs)
+	sorted := append([]string{}, vs...)
+	sort.SliceStable(sorted, func(a, b int) bool { return ri.rank[sorted[a]] < ri.rank[sorted[b]] })
+	// first declaration somewhere in the upper half, second in the lower half
+	hi := sorted[len(sorted)/2+r.Intn(len(sorted)-len(sorted)/2)]
+	lo := sorted[r.Intn(len(sorted)/2+1)]
+	if r.Intn(4) == 0 {
+		hi, lo = lo, hi
+	}
+	m.Deps[i].Req = hi
+	n := 1 + r.Intn(2)
+	for k := 0; k < n; k++ {
+		d := mDep{Name: name, Req: lo}
+		kind := "plugin"
+		switch r.Intn(3) {
+		case 0:
+			d.Mgmt, kind = true, "management"
+		case 1:
+			d.Profile, kind = true, "profile"
+		default:
+			d.Plugin = true
 		}
+		m.Deps = append(m.Deps, d)
+		lo = pick(r, sorted)
+		count("duplicate_declaration", kind)
 	}
-	return false
 }
